@@ -7,22 +7,22 @@ ROOT = os.path.dirname(os.path.dirname(os.path.abspath(__file__)))
 CHECKS = {
     "C02": dict(level="fault_enumeration", engine="hcore",
         technique="runtime monitoring: agreement oracle over recorded hand-overs of the real rbc.Receiver / threshold dispatch under a Byzantine strategy catalogue; delivery schedules enumerated by sleep-set DFS (small N) and sampled",
-        text="Every hand-over of a broadcast-class message at an honest party is recorded by harness-owned backends; the oracle groups them by (session, sender, round) and demands byte-identical payloads. Executions: a Byzantine sender with 0..N-3 accomplices (equivocation over every 2-partition of the honest set, self-acknowledgement before/after/instead of the payload, accomplice vouchers for both versions, replays, forged acknowledgements), N=3..5, all inequivalent delivery orders for N=3 (and N=4 up to a bound), PRNG-sampled orders beyond. This is the level a monitor can give: held on the executions produced, exhaustive only for the flagged sub-spaces. Orchestrator-level scenarios include key generation with thresholds below n-1 (the broadcast of a key generation needs the vouchers of all other parties whatever the threshold) and PRNG mixtures of the catalogue's ingredients.",
+        text="Every hand-over of a broadcast-class message at an honest party is recorded by harness-owned backends; the oracle groups them by (session, sender, round) and demands byte-identical payloads. Executions: a Byzantine sender with 0..N-3 accomplices (equivocation over every 2-partition of the honest set, self-acknowledgement before/after/instead of the payload, accomplice vouchers for both versions, replays, forged acknowledgements), N=3..5, all inequivalent delivery orders for N=3 (and N=4 up to a bound), PRNG-sampled orders beyond. This is the level a monitor can give: held on the executions produced, exhaustive only for the flagged sub-spaces. Orchestrator-level scenarios include key generation with thresholds below n-1 (the broadcast of a key generation needs the vouchers of all other parties whatever the threshold) and PRNG mixtures of the catalogue's ingredients. The concurrent-dispatch unit of C03 runs under C02 as well; worlds with a single honest party.",
         note="Trusted: the harness's recording backend and simulated network (per-link FIFO, true origin stamped as Source); Byzantine content is taken from the strategy catalogue, not adaptive; schedules beyond the enumerated/sampled ones are not covered.",
         design="2/C02"),
     "C03": dict(level="fault_enumeration", engine="hcore",
         technique="runtime monitoring: integrity oracle joining every hand-over with the per-link delivery log (authentic, member, at most once, non-empty) under the same Byzantine catalogue and schedule enumeration as C02",
-        text="Each hand-over to the backend is joined with the log of what was actually delivered on the link from the attributed party to this party (unique payloads make the join exact); multiplicity per (sender, round) must be <= 1, the message non-empty, point-to-point messages handed over as received. Same executions as C02 plus replay/duplication scenarios. A concurrent arm hands both versions of an equivocating participant's broadcast to every honest node from two goroutines at once, with a log sink that is slow exactly at the reliable broadcast's registration messages.",
+        text="Each hand-over to the backend is joined with the log of what was actually delivered on the link from the attributed party to this party (unique payloads make the join exact); multiplicity per (sender, round) must be <= 1, the message non-empty, point-to-point messages handed over as received. Same executions as C02 plus replay/duplication scenarios. A concurrent arm hands both versions of an equivocating participant's broadcast to every honest node from two goroutines at once, with a log sink that is slow exactly at the reliable broadcast's registration messages. Worlds in which all N-1 other participants are Byzantine and vouch for a broadcast nobody transmitted.",
         note="Trusted: harness recorder and simulated network; same residue as C02.",
         design="2/C03"),
     "C04": dict(level="exploration", engine="hcore",
         technique="runtime monitoring: exactly-once totality oracle at quiescence of all-honest runs; all inequivalent delivery interleavings by sleep-set DFS for small configurations, sampled overtaking schedules beyond",
-        text="At quiescence of an all-honest run the multiset of hand-overs must equal the script (every broadcast once at every other party, every point-to-point message once at its addressee); a flagged equivocation shows up as a missing later hand-over because all rounds are in flight together. N=2..5(6), several concurrent senders, 1..3 rounds, acknowledgements overtaking payloads counted. Orchestrated configurations include two-byte party identifiers. A third unit lets sessions run to completion (the backend's completing OnMsg returns only after the call returned; every fifth case all parties broadcast byte-identical payloads) and judges a missed deadline by the silence of the event log at that moment.",
+        text="At quiescence of an all-honest run the multiset of hand-overs must equal the script (every broadcast once at every other party, every point-to-point message once at its addressee); a flagged equivocation shows up as a missing later hand-over because all rounds are in flight together. N=2..5(6), several concurrent senders, 1..3 rounds, acknowledgements overtaking payloads counted. Orchestrated configurations include two-byte party identifiers. A third unit lets sessions run to completion (the backend's completing OnMsg returns only after the call returned; every fifth case all parties broadcast byte-identical payloads) and judges a missed deadline by the silence of the event log at that moment. Further units: protocol messages of 1..3 bytes; two consecutive sessions on one topic with the first session's acknowledgements about a party's own broadcasts delivered inside the second.",
         note="Trusted: harness recorder and network; sleep-set independence (deliveries at different receivers commute) relies on parties sharing no state.",
         design="2/C04"),
     "C14": dict(level="exploration", engine="hcore",
         technique="runtime monitoring under a controlled scheduler: the real msg.Box parks at verif yield points (lock boundaries and shared-state accesses), interleavings of concurrent receive/Send calls enumerated by stateless DFS and PRNG schedules; exactly-once/in-order oracle on the handler log; plus a stress arm with real goroutines",
-        text="One controlled thread runs at a time; threads waiting for a lock are recognised by their goroutine wait state, so yield points may lie inside critical sections and a shrunk critical section creates new interleavings instead of hiding them. Eleven configurations of concurrent receives and (repeated) first Sends on one or two topics; two enumerated completely in the quick tier, the others up to a bound and then sampled. Oracle at quiescence: every message received for a topic whose Send completed was handed to the dispatcher exactly once, per-sender order = arrival order. Three configurations run the collector on a hand-driven epoch clock whose tick is a schedulable operation.",
+        text="One controlled thread runs at a time; threads waiting for a lock are recognised by their goroutine wait state, so yield points may lie inside critical sections and a shrunk critical section creates new interleavings instead of hiding them. Eleven configurations of concurrent receives and (repeated) first Sends on one or two topics; two enumerated completely in the quick tier, the others up to a bound and then sampled. Oracle at quiescence: every message received for a topic whose Send completed was handed to the dispatcher exactly once, per-sender order = arrival order. Three configurations run the collector on a hand-driven epoch clock whose tick is a schedulable operation. Topics kept active over 3..9 epochs with a real expiry; a sender exactly at the documented limit of unstarted topics.",
         note="Trusted: the hook placement (interleavings are explored at the granularity of the verif yield points of msg/msgbox.go), the harness handler; expiry disabled. Real-scheduler interleavings are covered only by the stress arm.",
         design="2/C14"),
     "C15": dict(level="exploration", engine="hcore",
@@ -62,7 +62,7 @@ CHECKS = {
         design="2/C05"),
     "C08": dict(level="exploration", engine="hcrypto",
         technique="runtime monitoring: the four calls of the blind-signature pipeline (TPS.Sign, UnBlind, ProveKnowledgeOfSignature, Verifier.Verify) must succeed for every generated configuration, message vector and EVERY signer subset in PRNG order; public material byte-identical",
-        text="PS key generations (directly wired; every third through real Loud/Silent schemes) for 2<=t<=n<=5 (6), identifier sets 1..n, {1,2,4,..}, {10,20,..}, PRNG 16-bit; L=1..4; vectors with empty, equal, random and 64 KiB entries. One in-memory request value (ps.Blind) is signed by three signers twice over.",
+        text="PS key generations (directly wired; every third through real Loud/Silent schemes) for 2<=t<=n<=5 (6), identifier sets 1..n, {1,2,4,..}, {10,20,..}, PRNG 16-bit; L=1..4; vectors with empty, equal, random and 64 KiB entries. One in-memory request value (ps.Blind) is signed by three signers twice over. A second driver (own Go module) links mpc/ps with the dependency versions its own go.mod declares and runs honest key generations for up to 12 (20) parties followed by the whole signing flow.",
         note="Trusted: the library's own verifier as oracle for completeness (soundness is C09's subject).",
         design="2/C08"),
     "C09": dict(level="exploration", engine="hcrypto",
